@@ -2,6 +2,7 @@ import Lean.Data.Json
 import KojenVerif.Model.Pipeline
 import KojenVerif.Model.DocCheck
 import KojenVerif.Model.OutStage
+import KojenVerif.Lemmas.OutStageRun
 import KojenVerif.Model.Conn
 import KojenVerif.Model.Wire
 import KojenVerif.Model.Dispatch
@@ -355,7 +356,17 @@ def handle (j : Json) : Except String Json := do
   | "script" => do
     let outdir ← getStr j "outdir"
     let cm ← asPairs (← j.getObjVal? "cm")
-    let ops := script outdir cm
+    -- the copy of the support sources after the output stage: [{dirTo, files: [[name, source path, content]]}]
+    let calls ← (match j.getObjVal? "copies" with
+      | .ok v => do
+        (← v.getArr?).toList.mapM (fun c => do
+          let files ← (← (← c.getObjVal? "files").getArr?).toList.mapM (fun f => do
+            match (← f.getArr?).toList with
+            | [n, src, content] => pure (← asStr n, ← asStr src, ← asStr content)
+            | _ => throw "copy file: [name, source, content]")
+          pure ({ dirTo := ← getStr c "dirTo", files := files } : CopyCall))
+      | .error _ => pure [])
+    let ops := if calls.isEmpty then script outdir cm else prog (runBlocks outdir cm calls)
     let enc : Op → Json
       | .mkdirs d => Json.arr #[Json.str "mkdirs", jStr d]
       | .openTmp t => Json.arr #[Json.str "open", jStr t]
